@@ -540,7 +540,9 @@ def check_absorption(mm, rep):
                             c = T.short(x[1])[:60]
                             return branches(x[2], conds + (c,)) + branches(x[3], conds + ("not " + c,))
                         if x[0] == "match":
-                            return [y for l, b in x[2] for y in branches(b, conds + ("match " + l,))]
+                            # an arm for `None | Some(..)` is the two cases it covers (keys stay what they are when two arms with
+                            # one body are written as one or-pattern)
+                            return [y for l, b in x[2] for alt in (l.split("|") if set(l.split("|")) == {"None", "Some"} else [l]) for y in branches(b, conds + ("match " + alt,))]
                         return [(x, conds)]
 
                     for br, bc in branches(t):
@@ -568,7 +570,13 @@ def check_absorption(mm, rep):
                                 if "pat" in anc and key == "body" and anc is not arm.node:
                                     pv = F.pat_variants(anc["pat"])
                                     conds.append("match " + ("|".join(sorted(v for _, v in pv)) if pv else "_"))
-                            if K not in conflict_diag and K in equating_diag:
+                            # an arm for `None | Some(..)` is the two cases it covers: one obligation each, keyed as if written apart
+                            cond_sets = [conds]
+                            for ci, c_ in enumerate(conds):
+                                if c_ == "match None|Some":
+                                    cond_sets = [cs[:ci] + [alt] + cs[ci + 1:] for cs in cond_sets for alt in ("match None", "match Some")]
+                            for conds in cond_sets:
+                              if K not in conflict_diag and K in equating_diag:
                                 # an empty component list has nothing to unify: dropping it loses nothing
                                 if any("is_empty" in c for c in conds):
                                     continue
@@ -576,16 +584,16 @@ def check_absorption(mm, rep):
                                 if t[0] == "path" and str(t[1]).split("::")[-1] != X:
                                     continue
                                 akey = f"absorb-eq:{X}x{K}"
-                            else:
+                              else:
                                 akey = f"absorb:{X}x{K}[{' & '.join(conds) or 'always'}]"
-                            rep.oblige(
-                                not inconsistent,
-                                "R16.3",
-                                akey,
-                                F.loc(node["span"]),
-                                (f"merge({X}, {K}) returns the {X} unchanged and drops the {K} evidence (when {' and '.join(conds) or 'always'}), but {K} x {K} can conflict (arm at {conflict_diag[K].where() if K in conflict_diag else '-'}): merge(merge({X.lower()},k1),k2) keeps the {X} while merge({X.lower()},merge(k1,k2)) is a conflict — the outcome depends on grouping and therefore on set iteration order" if K in conflict_diag else f"merge({X}, {K}) returns the {X} unchanged and drops the {K} evidence (when {' and '.join(conds) or 'always'}), but {K} x {K} unifies the components of the two {K}s (arm at {equating_diag[K].where()}): whether two {K}s in one class ever meet - and their components get unified - depends on the order of the fold"),
-                                sample={"rule": "R16.3", "arm": arm.label(), "keeps": X, "drops": K, "conditions": conds},
-                            )
+                              rep.oblige(
+                                  not inconsistent,
+                                  "R16.3",
+                                  akey,
+                                  F.loc(node["span"]),
+                                  (f"merge({X}, {K}) returns the {X} unchanged and drops the {K} evidence (when {' and '.join(conds) or 'always'}), but {K} x {K} can conflict (arm at {conflict_diag[K].where() if K in conflict_diag else '-'}): merge(merge({X.lower()},k1),k2) keeps the {X} while merge({X.lower()},merge(k1,k2)) is a conflict — the outcome depends on grouping and therefore on set iteration order" if K in conflict_diag else f"merge({X}, {K}) returns the {X} unchanged and drops the {K} evidence (when {' and '.join(conds) or 'always'}), but {K} x {K} unifies the components of the two {K}s (arm at {equating_diag[K].where()}): whether two {K}s in one class ever meet - and their components get unified - depends on the order of the fold"),
+                                  sample={"rule": "R16.3", "arm": arm.label(), "keeps": X, "drops": K, "conditions": conds},
+                              )
     rep.extra["absorbing_paths_examined"] = n
 
 
